@@ -1,6 +1,7 @@
 import IbModel.Proofs.Sampling
 import IbModel.Proofs.SamplingKeyed
 import IbModel.Proofs.SamplingTies
+import IbModel.Driver.D14
 /-!
 # C14 — reservoir sampling: right size, real elements only, reproducible, mode-stable
 
@@ -11,9 +12,11 @@ Property theorems about the model of `src/combiners/sampling.rs` / `src/helpers/
 
 The last claim of the property ("identical for sequential and parallel execution and for every
 partitioning", as documented in `helpers/sampling.rs`) is **false for the code as written**: every
-partition restarts the same SplitMix64 stream. `seq_ne_par` proves the negation on a concrete witness;
-`mode_stable_single_partition_partial` and `mode_stable_multiset_of_k_ge_partial` are the parts of the
-claim that do hold (`…_partial`).
+partition restarts the same SplitMix64 stream. `seq_ne_par` (global) and `keyed_seq_ne_par` (per key) prove the negation on concrete witnesses;
+`mode_stable_single_partition_partial`, `mode_stable_multiset_of_k_ge_partial` and their per-key / filtered /
+flattened forms (`keyed_…`, `filter_…`, `flat_…`) are the parts of the claim that do hold (`…_partial`).
+`sampleParts_*` state size and sub-multiset for an ARBITRARY list of partitions (empty and skewed ones, as a
+`filter` upstream produces them); `sampleFlat*` are the flattened entry point `sample_reservoir`.
 -/
 namespace IB.Sampling
 
@@ -266,6 +269,104 @@ theorem samplePar_submultiset [DecidableEq α] (next : σ → Nat × σ) (k : Na
   have := sample_submultiset next k s0 (parTree n xs) x
   rwa [parTree_leaves] at this
 
+/-! ### arbitrary partitions (skewed / empty ones included), a `filter` upstream, the flattened form -/
+
+/-- the merge tree `sampleParts` evaluates: the left comb over the partitions, in order -/
+def partsTree (ps : List (List α)) : Tree α :=
+  match ps with
+  | [] => .leaf []
+  | p :: ps => combTree p ps
+
+theorem partsTree_leaves (ps : List (List α)) : (partsTree ps).leaves = ps.flatten := by
+  cases ps with
+  | nil => rfl
+  | cons p ps => simp [partsTree, combTree, foldl_comb_leaves, Tree.leaves]
+
+theorem sampleParts_eq_tree {A O : Type} (c : Combiner α A O) (ps : List (List α)) :
+    sampleParts c ps = c.finish ((partsTree ps).eval c) := by
+  unfold sampleParts partsTree
+  cases ps with
+  | nil => rfl
+  | cons p ps => simp only [List.map_cons, mergeAll, combTree, foldl_comb_eval, Tree.eval]
+
+/-- parallel execution is `sampleParts` on the partitions `exec_par` cuts -/
+theorem samplePar_eq_parts {A O : Type} (c : Combiner α A O) (n : Nat) (xs : List α) :
+    samplePar c n xs = sampleParts c (partsOf n xs) := rfl
+
+/-- **Size, every partitioning**: any list of partitions whatsoever — empty ones, skewed ones, any number. -/
+theorem sampleParts_size (next : σ → Nat × σ) (k : Nat) (s0 : σ) (ps : List (List α)) :
+    (sampleParts (reservoir next k s0) ps).length = min k ps.flatten.length := by
+  rw [sampleParts_eq_tree, ← partsTree_leaves]
+  exact sample_size next k s0 (partsTree ps)
+
+/-- **Sub-multiset, every partitioning.** -/
+theorem sampleParts_submultiset [DecidableEq α] (next : σ → Nat × σ) (k : Nat) (s0 : σ)
+    (ps : List (List α)) (x : α) :
+    (sampleParts (reservoir next k s0) ps).count x ≤ ps.flatten.count x := by
+  rw [sampleParts_eq_tree, ← partsTree_leaves]
+  exact sample_submultiset next k s0 (partsTree ps) x
+
+theorem flatten_map_filter {β : Type} (p : β → Bool) : ∀ (ps : List (List β)),
+    (ps.map (List.filter p)).flatten = ps.flatten.filter p
+  | [] => rfl
+  | q :: ps => by
+    simp only [List.map_cons, List.flatten_cons, List.filter_append, flatten_map_filter p ps]
+
+/-- a `filter` before the sample, parallel mode: the partitions the combiner sees hold exactly the kept elements -/
+theorem filterParts_flatten {β : Type} (n : Nat) (p : β → Bool) (xs : List β) :
+    ((partsOf n xs).map (List.filter p)).flatten = xs.filter p := by
+  rw [flatten_map_filter, partsOf_flatten]
+
+/-- size with a `filter` upstream, sequential mode -/
+theorem sampleFilterSeq_size (next : σ → Nat × σ) (k : Nat) (s0 : σ) (p : α → Bool) (xs : List α) :
+    (sampleFilterSeq (reservoir next k s0) p xs).length = min k (xs.filter p).length :=
+  sampleSeq_size next k s0 (xs.filter p)
+
+/-- size with a `filter` upstream, parallel mode, every partition count (`min k` of the KEPT elements) -/
+theorem sampleFilterPar_size (next : σ → Nat × σ) (k : Nat) (s0 : σ) (n : Nat) (p : α → Bool) (xs : List α) :
+    (sampleFilterPar (reservoir next k s0) n p xs).length = min k (xs.filter p).length := by
+  unfold sampleFilterPar
+  rw [sampleParts_size, filterParts_flatten]
+
+theorem sampleFilterSeq_submultiset [DecidableEq α] (next : σ → Nat × σ) (k : Nat) (s0 : σ) (p : α → Bool)
+    (xs : List α) (x : α) :
+    (sampleFilterSeq (reservoir next k s0) p xs).count x ≤ (xs.filter p).count x :=
+  sampleSeq_submultiset next k s0 (xs.filter p) x
+
+/-- sub-multiset of the KEPT elements with a `filter` upstream, parallel mode, every partition count -/
+theorem sampleFilterPar_submultiset [DecidableEq α] (next : σ → Nat × σ) (k : Nat) (s0 : σ) (n : Nat)
+    (p : α → Bool) (xs : List α) (x : α) :
+    (sampleFilterPar (reservoir next k s0) n p xs).count x ≤ (xs.filter p).count x := by
+  unfold sampleFilterPar
+  have := sampleParts_submultiset next k s0 ((partsOf n xs).map (List.filter p)) x
+  rwa [filterParts_flatten] at this
+
+/-- the flattened entry point `sample_reservoir` returns exactly the elements of the one `Vec` row of
+    `sample_reservoir_vec`, in the same order — sequential … -/
+theorem sampleFlatSeq_eq {A : Type} (c : Combiner α A (List α)) (xs : List α) :
+    sampleFlatSeq c xs = sampleSeq c xs := by
+  simp [sampleFlatSeq, flattenGlobal]
+
+/-- … and parallel, every partition count -/
+theorem sampleFlatPar_eq {A : Type} (c : Combiner α A (List α)) (n : Nat) (xs : List α) :
+    sampleFlatPar c n xs = samplePar c n xs := by
+  simp [sampleFlatPar, flattenGlobal]
+
+/-- size, flattened entry point, both modes -/
+theorem sampleFlat_size (next : σ → Nat × σ) (k : Nat) (s0 : σ) (n : Nat) (xs : List α) :
+    (sampleFlatSeq (reservoir next k s0) xs).length = min k xs.length ∧
+    (sampleFlatPar (reservoir next k s0) n xs).length = min k xs.length := by
+  rw [sampleFlatSeq_eq, sampleFlatPar_eq]
+  exact ⟨sampleSeq_size next k s0 xs, samplePar_size next k s0 n xs⟩
+
+/-- sub-multiset, flattened entry point, both modes -/
+theorem sampleFlat_submultiset [DecidableEq α] (next : σ → Nat × σ) (k : Nat) (s0 : σ) (n : Nat)
+    (xs : List α) (x : α) :
+    (sampleFlatSeq (reservoir next k s0) xs).count x ≤ xs.count x ∧
+    (sampleFlatPar (reservoir next k s0) n xs).count x ≤ xs.count x := by
+  rw [sampleFlatSeq_eq, sampleFlatPar_eq]
+  exact ⟨sampleSeq_submultiset next k s0 xs x, samplePar_submultiset next k s0 n xs x⟩
+
 /-! ## the per-key pipelines (`sample_values_reservoir_vec`, `sample_values_reservoir`) -/
 
 section keyed
@@ -416,6 +517,27 @@ theorem keyedFlat_submultiset [DecidableEq α] (next : σ → Nat × σ) (k : Na
     exact keyed_sample_submultiset next k s0 ps key s (mem_of_lookupK key s _ hl) x
   | none => simp
 
+/-- a `filter` upstream of the per-key sample is `sampleKeyedParts` on the filtered partitions -/
+theorem sampleKeyedFilterPar_eq_parts {A O : Type} (c : Combiner α A O) (n : Nat) (p : κ × α → Bool)
+    (rows : List (κ × α)) :
+    sampleKeyedFilterPar c n p rows = sampleKeyedParts c ((partsOf n rows).map (List.filter p)) := rfl
+
+/-- size per key with a `filter` upstream, parallel mode, every partition count -/
+theorem sampleKeyedFilterPar_size (next : σ → Nat × σ) (k : Nat) (s0 : σ) (n : Nat) (p : κ × α → Bool)
+    (rows : List (κ × α)) (key : κ) (s : List α)
+    (h : (key, s) ∈ sampleKeyedFilterPar (reservoir next k s0) n p rows) :
+    s.length = min k (valuesOf key (rows.filter p)).length := by
+  have := keyed_sample_size next k s0 ((partsOf n rows).map (List.filter p)) key s h
+  rwa [filterParts_flatten] at this
+
+/-- sub-multiset per key with a `filter` upstream, parallel mode, every partition count -/
+theorem sampleKeyedFilterPar_submultiset [DecidableEq α] (next : σ → Nat × σ) (k : Nat) (s0 : σ) (n : Nat)
+    (p : κ × α → Bool) (rows : List (κ × α)) (key : κ) (s : List α)
+    (h : (key, s) ∈ sampleKeyedFilterPar (reservoir next k s0) n p rows) (x : α) :
+    s.count x ≤ (valuesOf key (rows.filter p)).count x := by
+  have := keyed_sample_submultiset next k s0 ((partsOf n rows).map (List.filter p)) key s h x
+  rwa [filterParts_flatten] at this
+
 end keyed
 
 /-! ## mode stability: what holds, and the negation of what is documented
@@ -423,10 +545,11 @@ end keyed
 The full statement the property (and the crate's documentation) asks for is
 
     ∀ seed k n xs, samplePar (reservoirSM k seed) n xs = sampleSeq (reservoirSM k seed) xs
-    (and likewise per key)
+    ∀ seed k n rows, sampleKeyedPar (reservoirSM k seed) n rows = sampleKeyedSeq (reservoirSM k seed) rows
 
-It is **false** for the code as written (`seq_ne_par`, `seq_ne_par_of_first_prio_gt`,
-`samplePar_singleton_partitions`). What does hold is kept as the two `…_partial` theorems below. -/
+Both are **false** for the code as written (global: `seq_ne_par`, `seq_ne_par_of_first_prio_gt`,
+`samplePar_singleton_partitions`; per key: `keyed_seq_ne_par`, `keyed_seq_ne_par_of_first_prio_gt`,
+`sampleKeyedPar_singleton_partitions`). What does hold is kept as the `…_partial` theorems below. -/
 
 /-- `…_partial` (1): with one partition (requested `n ≤ 1`, or an input of length ≤ 1) parallel = sequential. -/
 theorem mode_stable_single_partition_partial {A O : Type} (c : Combiner α A O) (n : Nat) (xs : List α)
@@ -449,6 +572,70 @@ theorem mode_stable_multiset_of_k_ge_partial (next : σ → Nat × σ) (k : Nat)
   rw [parTree_leaves] at h1
   rw [samplePar_eq_tree]
   exact h1.trans h2.symm
+
+/-- one partition is what `exec_par` cuts when `n ≤ 1` is requested or the source has at most one row -/
+theorem partsOf_single {β : Type} (n : Nat) (xs : List β) (h : n ≤ 1 ∨ xs.length ≤ 1) : partsOf n xs = [xs] := by
+  unfold partsOf vecSplit clampParts
+  rw [if_pos]
+  rcases h with h | h
+  · left; omega
+  · right; exact h
+
+/-- `…_partial` (1f): the same with a `filter` upstream (`n ≤ 1`, or a SOURCE of length ≤ 1) -/
+theorem filter_mode_stable_single_partition_partial {A O : Type} (c : Combiner α A O) (n : Nat)
+    (p : α → Bool) (xs : List α) (h : n ≤ 1 ∨ xs.length ≤ 1) :
+    sampleFilterPar c n p xs = sampleFilterSeq c p xs := by
+  simp [sampleFilterPar, sampleFilterSeq, sampleParts, sampleSeq, partsOf_single n xs h]
+
+/-- `…_partial` (1g): the flattened entry point, one partition -/
+theorem flat_mode_stable_single_partition_partial {A : Type} (c : Combiner α A (List α)) (n : Nat)
+    (xs : List α) (h : n ≤ 1 ∨ xs.length ≤ 1) : sampleFlatPar c n xs = sampleFlatSeq c xs := by
+  rw [sampleFlatPar_eq, sampleFlatSeq_eq, mode_stable_single_partition_partial c n xs h]
+
+section keyedStability
+variable {κ : Type} [DecidableEq κ]
+
+/-- `…_partial` (1k), **per key**: with one partition (requested `n ≤ 1`, or at most one input row) the
+    parallel per-key sample IS the sequential one — every combiner, every key, whole output. -/
+theorem keyed_mode_stable_single_partition_partial {A O : Type} (c : Combiner α A O) (n : Nat)
+    (rows : List (κ × α)) (h : n ≤ 1 ∨ rows.length ≤ 1) :
+    sampleKeyedPar c n rows = sampleKeyedSeq c rows := by
+  simp [sampleKeyedPar, sampleKeyedSeq, partsOf_single n rows h]
+
+/-- `…_partial` (1kf): per key with a `filter` upstream -/
+theorem keyed_filter_mode_stable_single_partition_partial {A O : Type} (c : Combiner α A O) (n : Nat)
+    (p : κ × α → Bool) (rows : List (κ × α)) (h : n ≤ 1 ∨ rows.length ≤ 1) :
+    sampleKeyedFilterPar c n p rows = sampleKeyedFilterSeq c p rows := by
+  simp [sampleKeyedFilterPar, sampleKeyedFilterSeq, sampleKeyedSeq, partsOf_single n rows h]
+
+/-- `…_partial` (2k), **per key**: a key with at most `k` values gets all of them in both modes, so its two
+    samples agree as multisets (their internal order can differ). -/
+theorem keyed_mode_stable_multiset_of_k_ge_partial (next : σ → Nat × σ) (k : Nat) (s0 : σ) (n : Nat)
+    (rows : List (κ × α)) (key : κ) (sp sq : List α)
+    (hp : (key, sp) ∈ sampleKeyedPar (reservoir next k s0) n rows)
+    (hq : (key, sq) ∈ sampleKeyedSeq (reservoir next k s0) rows)
+    (hk : (valuesOf key rows).length ≤ k) : sp.Perm sq := by
+  have h1 := lookupK_of_mem_nodup key sp _ (keyed_keys_nodup _ (partsOf n rows)) hp
+  have h2 := lookupK_of_mem_nodup key sq _ (keyed_keys_nodup _ [rows]) hq
+  rw [keyed_lookup] at h1 h2
+  split at h1
+  · simp at h1
+  · split at h2
+    · simp at h2
+    · simp only [Option.some.injEq] at h1 h2
+      have e1 := sample_all_of_k_ge next k s0 (keyTree key (partsOf n rows))
+        (by rw [keyTree_leaves, partsOf_flatten]; exact hk)
+      have e2 := sample_all_of_k_ge next k s0 (keyTree key [rows])
+        (by rw [keyTree_leaves]; simpa using hk)
+      rw [keyTree_leaves, partsOf_flatten] at e1
+      rw [keyTree_leaves] at e2
+      simp only [List.flatten_cons, List.flatten_nil, List.append_nil] at e2
+      unfold sampleOf at e1 e2
+      rw [h1] at e1
+      rw [h2] at e2
+      exact e1.trans e2.symm
+
+end keyedStability
 
 /-- **Negation of the documented mode stability** (known finding `C14-sample-differs-seq-par`): for the code
     as written (SplitMix64 restarted from the same state in every partition) there are a seed, an input,
@@ -550,6 +737,185 @@ theorem samplePar_singleton_partitions_ignores_seed {σ' : Type} (next : σ → 
     samplePar (reservoir next k s0) n xs = samplePar (reservoir next' k s0') n xs := by
   rw [samplePar_singleton_partitions next k s0 n xs hn, samplePar_singleton_partitions next' k s0' n xs hn]
 
+/-! ### the same collapse for ARBITRARY partitions of at most one element (singleton partitions thinned out
+by an upstream `filter`), and per key -/
+
+theorem lastK_zero (l : List α) : lastK 0 l = [] := by simp [lastK]
+
+/-- **Every generator, every seed, every `k`, every list of partitions with at most one element each**
+    (empty partitions allowed): the sample is the last `k` elements in input order. -/
+theorem sampleParts_small_partitions (next : σ → Nat × σ) (k : Nat) (s0 : σ) (ps : List (List α))
+    (h : ∀ q ∈ ps, q.length ≤ 1) : sampleParts (reservoir next k s0) ps = lastK k ps.flatten := by
+  by_cases hk : k = 0
+  · subst hk
+    rw [lastK_zero]
+    exact List.length_eq_zero_iff.mp (by rw [sampleParts_size]; simp)
+  · have hk1 : 1 ≤ k := by omega
+    cases ps with
+    | nil => simp [sampleParts, mergeAll, reservoir, finish, create, lastK]
+    | cons q ps =>
+      have hps : ∀ q' ∈ ps, q'.length ≤ 1 := fun q' hq' => h q' (List.mem_cons_of_mem _ hq')
+      have hq := h q List.mem_cons_self
+      unfold sampleParts
+      simp only [List.map_cons, mergeAll]
+      match q, hq with
+      | [], _ =>
+        have ht := tied_foldl_small next k s0 hk1 ps [] _ hps (tied_create (next s0).1 k s0)
+        have hf := finish_tied ht
+        simpa [reservoir, Combiner.foldAdd] using hf
+      | [x], _ =>
+        have ht := tied_foldl_small next k s0 hk1 ps [x] _ hps (tied_single next k s0 x hk1)
+        have hf := finish_tied ht
+        rw [fold_single next k s0 x hk1]
+        simpa [reservoir] using hf
+
+/-- the partitions `exec_par` cuts when at least as many are requested as there are rows hold ≤ 1 row each -/
+theorem partsOf_small {β : Type} (n : Nat) (xs : List β) (hn : xs.length ≤ n) :
+    ∀ q ∈ partsOf n xs, q.length ≤ 1 := by
+  intro q hq
+  by_cases h1 : xs.length ≤ 1
+  · rw [partsOf_single n xs (Or.inr h1)] at hq
+    simp only [List.mem_singleton] at hq
+    subst hq; exact h1
+  · rw [partsOf_singletons n xs (by omega) hn] at hq
+    obtain ⟨x, _, rfl⟩ := List.mem_map.mp hq
+    simp
+
+theorem filter_small {β : Type} (p : β → Bool) (ps : List (List β)) (h : ∀ q ∈ ps, q.length ≤ 1) :
+    ∀ q ∈ ps.map (List.filter p), q.length ≤ 1 := by
+  intro q hq
+  obtain ⟨q0, hq0, rfl⟩ := List.mem_map.mp hq
+  exact Nat.le_trans (List.length_filter_le p q0) (h q0 hq0)
+
+/-- **With a `filter` upstream** and at least as many partitions as SOURCE rows: the parallel sample is the
+    last `k` KEPT elements — every generator, seed, `k`, predicate. -/
+theorem sampleFilterPar_singleton_partitions (next : σ → Nat × σ) (k : Nat) (s0 : σ) (n : Nat)
+    (p : α → Bool) (xs : List α) (hn : xs.length ≤ n) :
+    sampleFilterPar (reservoir next k s0) n p xs = lastK k (xs.filter p) := by
+  unfold sampleFilterPar
+  rw [sampleParts_small_partitions next k s0 _ (filter_small p _ (partsOf_small n xs hn)), filterParts_flatten]
+
+section keyedNegation
+variable {κ : Type} [DecidableEq κ]
+
+theorem valuesOf_length_le (key : κ) : ∀ (rows : List (κ × α)), (valuesOf key rows).length ≤ rows.length
+  | [] => Nat.le_refl _
+  | (k', v) :: r => by
+    have := valuesOf_length_le key r
+    simp only [valuesOf]
+    split <;> simp <;> omega
+
+theorem keyParts_small (key : κ) (ps : List (List (κ × α))) (h : ∀ q ∈ ps, q.length ≤ 1) :
+    ∀ q ∈ keyParts key ps, q.length ≤ 1 := by
+  intro q hq
+  unfold keyParts at hq
+  obtain ⟨hq1, _⟩ := List.mem_filter.mp hq
+  obtain ⟨q0, hq0, rfl⟩ := List.mem_map.mp hq1
+  exact Nat.le_trans (valuesOf_length_le key q0) (h q0 hq0)
+
+/-- **Per key, every generator, every seed, every `k`**: when every partition holds at most one row, each
+    key's sample is the last `k` of that key's values in input order (and a key is listed iff it occurs). -/
+theorem keyedParts_small_partitions (next : σ → Nat × σ) (k : Nat) (s0 : σ) (ps : List (List (κ × α)))
+    (h : ∀ q ∈ ps, q.length ≤ 1) (key : κ) :
+    lookupK key (sampleKeyedParts (reservoir next k s0) ps) =
+      if (valuesOf key ps.flatten).isEmpty then none else some (lastK k (valuesOf key ps.flatten)) := by
+  rw [keyed_lookup]
+  split
+  · rfl
+  · congr 1
+    by_cases hk : k = 0
+    · subst hk
+      rw [lastK_zero]
+      exact sample_k_zero next s0 (keyTree key ps)
+    · have hk1 : 1 ≤ k := by omega
+      have ht := tied_foldl_small next k s0 hk1 (keyParts key ps) [] _ (keyParts_small key ps h)
+        (tied_create (next s0).1 k s0)
+      have hf := finish_tied ht
+      rw [keyParts_flatten] at hf
+      simpa [keyTree, combTree, foldl_comb_eval, Tree.eval, reservoir, Combiner.foldAdd] using hf
+
+/-- parallel per-key sampling with at least as many partitions as rows: **last `k` values of every key** -/
+theorem sampleKeyedPar_singleton_partitions (next : σ → Nat × σ) (k : Nat) (s0 : σ) (n : Nat)
+    (rows : List (κ × α)) (hn : rows.length ≤ n) (key : κ) :
+    lookupK key (sampleKeyedPar (reservoir next k s0) n rows) =
+      if (valuesOf key rows).isEmpty then none else some (lastK k (valuesOf key rows)) := by
+  have := keyedParts_small_partitions next k s0 (partsOf n rows) (partsOf_small n rows hn) key
+  rwa [partsOf_flatten] at this
+
+/-- the same with a `filter` upstream (last `k` KEPT values of every key) -/
+theorem sampleKeyedFilterPar_singleton_partitions (next : σ → Nat × σ) (k : Nat) (s0 : σ) (n : Nat)
+    (p : κ × α → Bool) (rows : List (κ × α)) (hn : rows.length ≤ n) (key : κ) :
+    lookupK key (sampleKeyedFilterPar (reservoir next k s0) n p rows) =
+      if (valuesOf key (rows.filter p)).isEmpty then none
+      else some (lastK k (valuesOf key (rows.filter p))) := by
+  have := keyedParts_small_partitions next k s0 ((partsOf n rows).map (List.filter p))
+    (filter_small p _ (partsOf_small n rows hn)) key
+  rwa [filterParts_flatten] at this
+
+/-- per key, 2 rows of one key, 2 partitions, `k = 1`: the sample is the LAST value, whatever the generator and
+    the seed … -/
+theorem keyed_par_pair_ignores_generator_and_seed (next : σ → Nat × σ) (s0 : σ) (key : κ) (a b : α) :
+    lookupK key (sampleKeyedPar (reservoir next 1 s0) 2 [(key, a), (key, b)]) = some [b] := by
+  rw [sampleKeyedPar_singleton_partitions next 1 s0 2 _ (by simp) key]
+  simp [valuesOf, lastK]
+
+/-- … whereas the sequential per-key sample is the FIRST value whenever the first priority beats the second -/
+theorem keyed_seq_pair_of_first_prio_gt (next : σ → Nat × σ) (s0 : σ) (key : κ) (a b : α)
+    (h : (next (next s0).2).1 < (next s0).1) :
+    lookupK key (sampleKeyedSeq (reservoir next 1 s0) [(key, a), (key, b)]) = some [a] := by
+  rw [sampleKeyedSeq_eq_parts, keyed_lookup]
+  have h1 : ¬ (next s0).1 < (next (next s0).2).1 := by omega
+  have h2 : ¬ (next s0).1 = (next (next s0).2).1 := by omega
+  simp [valuesOf, keyTree, keyParts, combTree, Tree.eval, reservoir, Combiner.foldAdd, addInput, create, trim,
+    trimLoop, merge, moveLive, drainHeap, popMin, minOf, lexLt, finish, live, sortItems, insertItem, h1, h2]
+
+/-- **Keyed negation, for every generator**: whenever the stream's first priority exceeds its second, the
+    sequential and the 2-partition per-key sample of `[(key, a), (key, b)]`, `a ≠ b`, `k = 1`, differ. -/
+theorem keyed_seq_ne_par_of_first_prio_gt (next : σ → Nat × σ) (s0 : σ) (key : κ) (a b : α) (hab : a ≠ b)
+    (h : (next (next s0).2).1 < (next s0).1) :
+    sampleKeyedSeq (reservoir next 1 s0) [(key, a), (key, b)] ≠
+      sampleKeyedPar (reservoir next 1 s0) 2 [(key, a), (key, b)] := by
+  intro e
+  have h1 := keyed_seq_pair_of_first_prio_gt next s0 key a b h
+  rw [e, keyed_par_pair_ignores_generator_and_seed] at h1
+  exact hab (by simpa using h1.symm)
+
+end keyedNegation
+
+/-- **Keyed negation of the documented mode stability** (the keyed half of known finding
+    `C14-sample-differs-seq-par`): for the code as written there are a seed, keyed rows, a `k` and a partition
+    count for which `sample_values_reservoir_vec` differs between sequential and parallel execution.
+    Concrete witness, kernel-evaluated: seed 42, rows `[(0,0),(1,5),(0,1),(1,6),(0,2),(1,7)]`, `k = 1`,
+    2 partitions: sequential `[(0,[0]),(1,[5])]`, parallel `[(0,[2]),(1,[6])]`. -/
+theorem keyed_seq_ne_par : ∃ (seed : UInt64) (rows : List (Nat × Nat)) (k n : Nat),
+    sampleKeyedSeq (reservoirSM k seed) rows ≠ sampleKeyedPar (reservoirSM k seed) n rows :=
+  ⟨42, [(0, 0), (1, 5), (0, 1), (1, 6), (0, 2), (1, 7)], 1, 2, by decide⟩
+
+/-- the two keyed outputs of the witness -/
+theorem keyed_seq_ne_par_values :
+    sampleKeyedSeq (reservoirSM 1 42) [(0, 0), (1, 5), (0, 1), (1, 6), (0, 2), (1, 7)] = [(0, [0]), (1, [5])] ∧
+    sampleKeyedPar (reservoirSM 1 42) 2 [(0, 0), (1, 5), (0, 1), (1, 6), (0, 2), (1, 7)] = [(0, [2]), (1, [6])] := by
+  decide
+
+/-- with `k ≥ n_key` for every key the per-key elements agree but their order does not -/
+theorem keyed_seq_ne_par_order :
+    sampleKeyedSeq (reservoirSM 3 42) [(0, 0), (0, 1), (0, 2)] ≠
+      sampleKeyedPar (reservoirSM 3 42) 2 [(0, 0), (0, 1), (0, 2)] := by
+  decide
+
+/-- the flattened keyed entry point inherits the difference -/
+theorem keyedFlat_seq_ne_par :
+    flattenKeyed (sampleKeyedSeq (reservoirSM 1 42) [(0, 0), (1, 5), (0, 1), (1, 6), (0, 2), (1, 7)]) ≠
+      flattenKeyed (sampleKeyedPar (reservoirSM 1 42) 2 [(0, 0), (1, 5), (0, 1), (1, 6), (0, 2), (1, 7)]) := by
+  decide
+
+/-- a `filter` upstream does not repair it (global, seed 42, keep the even ones of `0..5`, `k = 1`,
+    2 partitions `[0,2]`, `[4]`): sequential `[0]`, parallel `[4]` -/
+theorem filter_seq_ne_par :
+    sampleFilterSeq (reservoirSM 1 42) (fun x : Nat => x % 2 == 0) [0, 1, 2, 3, 4, 5] = [0] ∧
+      sampleFilterPar (reservoirSM 1 42) 2 (fun x : Nat => x % 2 == 0) [0, 1, 2, 3, 4, 5] = [4] := by
+  decide
+
 /-- the design-time witness observed on the real crate (`0..20`, `k = 5`, seed 42) -/
 theorem witness_0_20_k5_seed42 :
     sampleSeq (reservoirSM 5 42) (List.range 20) = [15, 11, 19, 9, 4] ∧
@@ -564,4 +930,71 @@ example : (sampleOf smNextPrio 2 (seedState 7)
 
 example : (5 : Nat) ≤ 7 ∧ ([3, 1, 3, 1, 2] : List Nat).length ≤ 7 := by decide
 
+/-! non-vacuity of the hypotheses of the theorems added for the keyed half / skewed partitions -/
+
+/-- `sampleParts_small_partitions`, `keyedParts_small_partitions`: partitions of ≤ 1 element with empty ones
+    in front, in the middle and at the end (what `filter` leaves of singleton partitions) -/
+example : ∀ q ∈ ([[], [7], [], [7], [9], []] : List (List Nat)), q.length ≤ 1 := by decide
+
+/-- … and the conclusion on it is not trivial: last 2 of `[7,7,9]`, duplicates kept apart -/
+example : sampleParts (reservoirSM 2 123) ([[], [7], [], [7], [9], []] : List (List Nat)) = [7, 9] := by
+  unfold reservoirSM
+  rw [sampleParts_small_partitions _ _ _ _ (by decide)]; rfl
+
+/-- `keyed_mode_stable_single_partition_partial` / `…_singleton_partitions`: both hypotheses are satisfiable
+    by non-trivial rows (several keys, duplicates), `n ≤ 1` resp. `rows.length ≤ n` -/
+example : ((1 : Nat) ≤ 1 ∨ ([(0, 3), (1, 3), (0, 4)] : List (Nat × Nat)).length ≤ 1) ∧
+    ([(0, 3), (1, 3), (0, 4)] : List (Nat × Nat)).length ≤ 3 := by decide
+
+/-- `keyed_mode_stable_multiset_of_k_ge_partial`: its membership hypotheses hold for real outputs -/
+example : ((0 : Nat), [0, 1, 2]) ∈ sampleKeyedSeq (reservoirSM 3 42) [(0, 0), (0, 1), (0, 2)] ∧
+    ((0 : Nat), [0, 2, 1]) ∈ sampleKeyedPar (reservoirSM 3 42) 2 [(0, 0), (0, 1), (0, 2)] := by decide
+
+/-- `keyed_seq_ne_par_of_first_prio_gt`: the hypothesis holds for SplitMix64 with seed 42 (shown above for the
+    global form); the keyed witness `keyed_seq_ne_par` does not use it -/
+example : sampleKeyedSeq (reservoirSM 1 42) [((5 : Nat), (1 : Nat)), (5, 2)] ≠
+    sampleKeyedPar (reservoirSM 1 42) 2 [(5, 1), (5, 2)] :=
+  keyed_seq_ne_par_of_first_prio_gt smNextPrio (seedState 42) 5 1 2 (by decide) (by decide)
+
 end IB.Sampling
+
+/-! ## the driver's `RESERVOIR` evaluator is `Tree.eval` (what the theorems above are about) -/
+namespace IB.D14
+open IB.Sampling
+
+/-- the merge tree a request's shape denotes (`none` = a leaf index out of range) -/
+def shapeTree (parts : List (List Int)) : Shape → Option (Tree Int)
+  | .leaf i _ => (parts[i]?).map Tree.leaf
+  | .node l r =>
+    match shapeTree parts l, shapeTree parts r with
+    | some a, some b => some (.node a b)
+    | _, _ => none
+
+/-- The recursion the driver uses to answer `RESERVOIR` requests computes `Tree.eval` of the request's tree
+    (lifted leaves `B<i>` included: `build_from_group` is the per-partition fold), so the accumulators compared
+    with the real crate are exactly the ones `eval_inv`, `sample_size`, `sample_submultiset` speak about. -/
+theorem evalShape_eq_tree (k : Nat) (seed : UInt64) (parts : List (List Int)) : ∀ (sh : Shape),
+    evalShape (reservoirSM k seed) parts sh = (shapeTree parts sh).map (Tree.eval (reservoirSM k seed))
+  | .leaf i lifted => by
+    simp only [evalShape, shapeTree]
+    cases parts[i]? with
+    | none => rfl
+    | some p => cases lifted <;> rfl
+  | .node l r => by
+    simp only [evalShape, shapeTree, evalShape_eq_tree k seed parts l, evalShape_eq_tree k seed parts r]
+    cases shapeTree parts l <;> cases shapeTree parts r <;> rfl
+
+/-- hence every `OK` answer of the `RESERVOIR` handler is `sampleOf` of a merge tree -/
+theorem reservoir_answer_is_sampleOf (k : Nat) (seed : UInt64) (parts : List (List Int)) (sh : Shape)
+    (a : PRAcc UInt64 Int) (h : evalShape (reservoirSM k seed) parts sh = some a) :
+    ∃ t, shapeTree parts sh = some t ∧
+      (reservoirSM k seed).finish a = sampleOf smNextPrio k (seedState seed) t := by
+  rw [evalShape_eq_tree] at h
+  cases ht : shapeTree parts sh with
+  | none => rw [ht] at h; simp at h
+  | some t =>
+    rw [ht] at h
+    simp only [Option.map_some, Option.some.injEq] at h
+    exact ⟨t, rfl, by rw [← h]; rfl⟩
+
+end IB.D14
